@@ -135,8 +135,10 @@ func run(t *rapid.T, prop string) {
 
 	// ---- phase 1: build a storage-sharing family sequentially ----
 	nbuild := rapid.IntRange(0, maxBuild).Draw(t, "nbuild")
+	var prev *fam.OpDesc
 	for i := 0; i < nbuild; i++ {
-		d := fam.DrawOp(t)
+		d := fam.DrawSibling(t, prev)
+		prev = &d
 		ex := fam.Resolve(w, d, -1)
 		out := safeRun(ex)
 		tr.Build = append(tr.Build, ex.Desc)
@@ -162,7 +164,9 @@ func run(t *rapid.T, prop string) {
 		n := rapid.IntRange(1, maxOps).Draw(t, "nops")
 		var prog []fam.OpDesc
 		for i := 0; i < n; i++ {
-			prog = append(prog, fam.DrawOp(t))
+			d := fam.DrawSibling(t, prev)
+			prev = &d
+			prog = append(prog, d)
 		}
 		tr.Programs = append(tr.Programs, prog)
 	}
